@@ -224,7 +224,10 @@ pub fn on_timer(id: Id, ev: Instant, tag: &mut Tag) -> TimeoutAction {
                 }
                 drop(st);
                 if let Some((r, f, dd)) = viol {
-                    sim.violate(r, f, dd);
+                    // re-armed by another callback of this dispatch: that operation did not have
+                    // the effect it has outside a dispatch, which is C08's business too
+                    let extra: &[&str] = if excused { &["C08"] } else { &[] };
+                    sim.violate_props(r, extra, f, dd);
                     return TimeoutAction::Drop;
                 }
                 sim.rule_ok(&["C05"], 40 + excused as u64);
